@@ -146,7 +146,10 @@ def _fuzz_child(st, sub, seed, path):
     try:
         sys.stderr.flush()
         os.dup2(os.open(os.devnull, os.O_WRONLY), 2)     # atheris' instrumentation notes, libFuzzer's progress log
-        sys.path.insert(0, os.path.join(VERIF_DIR, ".deps"))
+        # installed by MANIFEST.setup_cmd into /verif/.deps; a snapshot of /verif (vp run) has no .deps of its own
+        for deps in (os.environ.get("VERIF_DEPS"), "/verif/.deps", os.path.join(VERIF_DIR, ".deps")):
+            if deps and os.path.isdir(deps):
+                sys.path.insert(0, deps)
         try:
             import atheris
         except ImportError:
